@@ -318,8 +318,8 @@ _url_common = dict(
     _t(tier, ["-n", "3000", "-mut", "800"], ["-n", "400000", "-mut", "100000"]),
     trace=("Trace_URL", "Trace_URL.cfg"),
     required=["url:ok", "url:err", "url:include-kept", "url:collection", "chain", "chain:special", "mutated"],
-    assumptions=["fixed schema: ta (2 attributes, relationships r and rs - one a string prefix of the other), tb, and tc "
-                 "without any field; soft or struct-backed", "request tokens are obtained from generated text with net/url"],
+    assumptions=["fixed schema: ta (2 attributes, relationships r and rs - one a string prefix of the other - and t), tb, tc "
+                 "without any field, and td whose relationship q has the name of tb's and another target; soft or struct-backed", "request tokens are obtained from generated text with net/url"],
     coverage=False,
 )
 prop("C07",
